@@ -11,6 +11,7 @@ import (
 	"path/filepath"
 	"regexp"
 	"runtime/debug"
+	"sort"
 	"strconv"
 	"strings"
 	"sync"
@@ -18,6 +19,7 @@ import (
 	"time"
 
 	"github.com/tdakkota/docker-logql/internal/logql"
+	"github.com/tdakkota/docker-logql/internal/logql/logqlengine"
 	"github.com/tdakkota/docker-logql/internal/zzverif/vk"
 )
 
@@ -201,6 +203,38 @@ type c17Input struct {
 	Recs  []Rec  `json:"records"`
 	P     EvalP  `json:"params"`
 	Big   bool   `json:"big"`
+	// Daemon > 0: the records are served by that many fake Docker containers (labelled job=j) instead of
+	// the in-memory storage; the first container's log is repeated up to LongLog frames, and BreakAt >= 0
+	// puts a frame without timestamp at that index of the last container's log.
+	Daemon  int `json:"daemon,omitempty"`
+	LongLog int `json:"long_log,omitempty"`
+	BreakAt int `json:"break_at,omitempty"`
+}
+
+// c17Inventory lays the input's records out as container logs (a pure function of the input).
+func c17Inventory(in c17Input) []CSpec {
+	inv := make([]CSpec, in.Daemon)
+	for i := range inv {
+		inv[i] = CSpec{ID: fmt.Sprintf("id%d", i), Name: fmt.Sprintf("/c%d", i), Image: "img", State: "running", Labels: map[string]string{"job": "j", "app": "x"}}
+	}
+	for i, rec := range in.Recs {
+		ci := i % in.Daemon
+		inv[ci].Frames = append(inv[ci].Frames, Frame{Type: byte(1 + i%2), TS: rec.TS, Body: rec.Line})
+	}
+	for i := range inv {
+		sort.SliceStable(inv[i].Frames, func(a, b int) bool { return inv[i].Frames[a].TS < inv[i].Frames[b].TS })
+	}
+	if base := inv[0].Frames; len(base) > 0 {
+		for k := 0; len(inv[0].Frames) < in.LongLog; k++ {
+			f := base[k%len(base)]
+			f.TS = base[len(base)-1].TS + int64(k+1)*1e6
+			inv[0].Frames = append(inv[0].Frames, f)
+		}
+	}
+	if last := &inv[len(inv)-1]; in.BreakAt >= 0 && in.BreakAt < len(last.Frames) {
+		last.Frames[in.BreakAt].Raw = "line-without-timestamp"
+	}
+	return inv
 }
 
 // c17Gen is a pure function of (seed, idx).
@@ -245,6 +279,15 @@ func c17Gen(seed int64, idx int, big bool) c17Input {
 		in.P = EvalP{Start: start, End: start + int64(r.Range(0, 63))*int64(step), Step: step}
 	}
 	in.P.Limit = vk.Pick(r, []int{-1, 0, 1, 5, 1000, -100})
+	in.BreakAt = -1
+	if idx%5 == 4 {
+		// the same through the Docker storage: long logs, consumers that stop early (limit, broken frame)
+		in.Daemon = r.Range(1, 3)
+		in.LongLog = vk.Pick(r, []int{0, 70, 150, 400})
+		if r.Chance(1, 3) {
+			in.BreakAt = r.Intn(6)
+		}
+	}
 	return in
 }
 
@@ -260,8 +303,11 @@ func c17Run(in c17Input) (panicked, stack, errText, kind string) {
 	if len(in.Query)%2 == 0 {
 		caps = allStrOps
 	}
-	mq := &MemQuerier{Recs: in.Recs, LabelCaps: caps, LineCaps: caps, ErrAfter: -1}
-	res, err := evalQuery(mq, in.Query, in.P)
+	var q logqlengine.Querier = &MemQuerier{Recs: in.Recs, LabelCaps: caps, LineCaps: caps, ErrAfter: -1}
+	if in.Daemon > 0 {
+		q = dockerQuerier(newFakeDocker(c17Inventory(in)))
+	}
+	res, err := evalQuery(q, in.Query, in.P)
 	if err != nil {
 		return "", "", err.Error(), ""
 	}
